@@ -151,6 +151,7 @@ func configFor(mode, tier string, r *core.Rng) genCfg {
 	case "governance":
 		c.w["change_param"], c.w["dao_transfer"], c.w["dao_burn"], c.w["upgrade"] = 30, 10, 8, 4
 		c.w["stake"], c.w["send"] = 4, 6
+		c.roRate = 0.25
 	case "restart":
 		c.restartRate = 0.25
 		c.roRate = 0.05
@@ -208,6 +209,19 @@ func Generate(property, tier string, seed uint64) *Trace {
 			b = 4000000000000000000
 		}
 		gen.Balances = append(gen.Balances, b)
+	}
+	if r.Chance(0.4) {
+		for i := 0; i < g.nAcct; i++ {
+			d := int64(0)
+			if r.Chance(0.5) {
+				d = int64(r.Range(1, 1000))
+			}
+			gen.Dust = append(gen.Dust, d)
+		}
+	}
+	// entropies: small counters in most runs, values beyond 2^53 in the others
+	if r.Chance(0.35) {
+		g.entropy = (int64(1) << 62) + int64(r.Intn(1<<30))
 	}
 	gen.KeyTypes[0] = "ed"
 	if gen.Balances[0] < 50000000 {
@@ -305,7 +319,7 @@ func Generate(property, tier string, seed uint64) *Trace {
 		tr.Config.Replicas[1].Twin = true
 	case "replica":
 		tr.Config.Replicas[nRep-1].Noise = true
-	case "query", "restart", "adversary":
+	case "query", "restart", "adversary", "governance":
 		tr.Config.Replicas[len(tr.Config.Replicas)-1].Noise = true
 	}
 	// ---- model of the generator
@@ -789,6 +803,13 @@ func (g *gen) genTx(bi int) {
 			s.Acct = g.pickAcct()
 		} else {
 			s.Acct = cands[r.Intn(len(cands))]
+			if len(cands) >= 2 && r.Chance(0.35) {
+				// a second validator begins unstaking in the same block: they share a completion time
+				other := cands[r.Intn(len(cands))]
+				if other != s.Acct {
+					g.addTx(bi, g.honest(TxSpec{Kind: "unstake", Acct: other}))
+				}
+			}
 		}
 	case "unjail":
 		cands := g.valsWith(func(v *MVal) bool { return v.Jailed })
@@ -834,7 +855,7 @@ func (g *gen) genTx(bi int) {
 		s.Amount = amt.String()
 	case "change_param":
 		k := AllParamKeys[r.Intn(len(AllParamKeys))]
-		if k == "pos/StakeDenom" || k == "gov/upgrade" || k == "pos/SignedBlocksWindow" || k == "auth/TxSigLimit" {
+		if k == "pos/StakeDenom" || k == "pos/SignedBlocksWindow" || k == "auth/TxSigLimit" {
 			k = "pos/MaxValidators"
 		}
 		s.ParamKey = k
@@ -858,6 +879,17 @@ func (g *gen) genTx(bi int) {
 			}
 		}
 		s.ParamVal = g.paramValue(k)
+		if r.Chance(0.12) {
+			// a value whose first fields are well-formed and a later one is not
+			switch k {
+			case "gov/upgrade":
+				s.ParamVal = `{"type":"gov/upgrade","value":{"Height":"1000007","Version":5}}`
+			case "auth/FeeMultipliers":
+				s.ParamVal = `{"fee_multiplier":[{"key":"send","multiplier":"2"}],"default":[1]}`
+			case "gov/acl":
+				s.ParamVal = `{"type":"gov/non_map_acl","value":[{"acl_key":"gov/acl","address":7}]}`
+			}
+		}
 		if r.Chance(0.1) {
 			s.ParamVal = []string{"{", "\"x\"", "12", "[1,2]", "{\"a\":1}", ""}[r.Intn(6)]
 		}
@@ -946,7 +978,23 @@ func (g *gen) genTx(bi int) {
 		if msg := BuildMsg(g.kr, s); msg != nil {
 			req = g.m.RequiredFee(msg.Type(), baseFeeOf(msg.Type())).Int64()
 		}
-		switch r.Pick([]int{3, 1, 2, 1, 1}) {
+		switch r.Pick([]int{3, 1, 2, 1, 1, 2, 2, 1}) {
+		case 5:
+			// a coin of another denomination instead of the stake-denom fee
+			s.Fee = -2
+			s.FeeDust = int64(r.Range(1, 3))
+		case 6:
+			// ... or next to a stake-denom fee that is one short
+			if req > 1 {
+				s.Fee = req - 1
+			}
+			s.FeeDust = 1
+		case 7:
+			s.Fee = req
+			if req == 0 {
+				s.Fee = -2
+			}
+			s.FeeDust = 1
 		case 0:
 			if req > 0 {
 				s.Fee = req - 1
@@ -1041,7 +1089,7 @@ func (g *gen) paramValue(k string) string {
 	case "gov/daoOwner":
 		return ParamJSON(g.kr.Get(g.pickAcct()).Addr)
 	case "gov/upgrade":
-		return ParamJSON(govTypes.Upgrade{Height: 1000000, Version: "0.0.1"})
+		return ParamJSON(govTypes.Upgrade{Height: 1000000 + int64(r.Intn(100)), Version: []string{"0.0.1", "0.0.0", "9.9.9"}[r.Intn(3)]})
 	}
 	return "1"
 }
@@ -1061,6 +1109,16 @@ func (g *gen) genReadOnly(bi, pos int, h int64) ReadOnly {
 		}
 		if r.Chance(0.15) {
 			s = TxSpec{Kind: "unjail", Acct: g.pickAcct()}
+		}
+		if g.cfg.mode == "governance" && r.Chance(0.6) {
+			// a governance message by whoever the model thinks owns the key (its committed-state view may differ
+			// from the view of the block being delivered)
+			k := []string{"gov/acl", "gov/daoOwner", "pos/MaxValidators", "auth/MaxMemoCharacters"}[r.Intn(4)]
+			who := g.pickAcct()
+			if o, ok := g.m.P.ACL[k]; ok && o >= 0 && r.Chance(0.7) {
+				who = o
+			}
+			s = TxSpec{Kind: "change_param", Acct: who, ParamKey: k, ParamVal: g.paramValue(k)}
 		}
 		s = g.honest(s)
 		if r.Chance(0.2) {
@@ -1086,6 +1144,9 @@ func (g *gen) genReadOnly(bi, pos int, h int64) ReadOnly {
 		return ReadOnly{Pos: pos, Kind: "query_store", Path: "/store/" + store + sub, Data: hex.EncodeToString(key), Height: height, Prove: r.Chance(0.5)}
 	case 3:
 		p := []string{"/custom/pos/validators", "/custom/pos/params", "/custom/auth/account", "/custom/gov/acl", "/custom/gov/dao_owner", "/custom/pos/nope", "/custom/nope/x", "/custom/pos/staking_pool"}[r.Intn(8)]
+		if g.cfg.mode == "governance" && r.Chance(0.6) {
+			p = []string{"/custom/gov/acl", "/custom/gov/dao_owner", "/custom/gov/upgrade"}[r.Intn(3)]
+		}
 		height := int64(0)
 		if r.Chance(0.5) {
 			height = int64(r.Range(0, int(h)+1))
